@@ -8,11 +8,13 @@ CONSTANTS
   OpTheories <- eTheories
   OpModules = {}
   Present0 <- eTheories
+  Origin <- eOrigin
   Items0 <- eItems0
   LimitsOf <- eLimits
   FileOps <- eFileOps
   Variants <- eVariants
   GoodVariants <- Fixed
+  PrintGood = FALSE
   MaxOps = 4
   MaxDepth = 40
   AllowFault = FALSE
